@@ -357,8 +357,9 @@ def r4_node_typestate(ctx):
                         if t['k'] == 'switch' and di < len(decs) and decs[di][0] == blk:
                             (_, a) = path_atoms(f, path, [decs[di]])[0]
                             di += 1
-                            if a and a[0] == 'bool' and a[1][0] == 'call' and a[1][1].endswith('::is_null') and any(x[0] == 'field' and x[2] == 'next' for x in walk(a[1])):
-                                last = (idx, blk, a[2])
+                            ln_ = link_null_truth(a)
+                            if ln_ is not None and any(x[0] == 'field' and x[2] == 'next' for x in walk(ln_[1])):
+                                last = (idx, blk, ln_[0])
                     if last is None and _yielded_with_successor(ctx, f, kb):
                         # the walk lives in a private iterator whose `next` yields a node only after finding its successor non-null
                         continue
